@@ -81,6 +81,15 @@ def observe_and_compare(h, m, ops_mod):
 
 
 def apply(h, m, op, handles):
+    """One operation on the store and on the model; an exception out of the store on an operation the model accepts
+    is a disagreement like any other."""
+    try:
+        return _apply(h, m, op, handles)
+    except Exception as e:  # noqa: BLE001
+        return f"{op[0]} raised {type(e).__name__}: {str(e)[:80]}"
+
+
+def _apply(h, m, op, handles):
     """Apply one operation to both; returns None or a disagreement about the operation itself."""
     import hugr.ops as O
     import hugr.tys as T
